@@ -365,6 +365,16 @@ def check_config(case):
                 bad('two-step-wrong', '%s add(add(t, %d), %d) observed %s, add(t, %d) observed %s, expected both %s' % (
                     tl, s, s, fmt(r2), 2 * s, fmt(r3), fmt(e)), op='two-step', sign=s, bday=eb)
 
+    # ---- adjust on a list / tuple / dict of dates with a per-call convention: element by element, with THAT convention
+    for a in ADJS:
+        out.sub()
+        want = [DTS[ref.adjust(i, a)] for i in days]
+        ok, got = impl(cal.adjust, [DTS[i] for i in days], a)
+        ok2, got2 = impl(cal.adjust, tuple(DTS[i] for i in days), a)
+        ok3, got3 = impl(cal.adjust, {'k%d' % j: DTS[i] for j, i in enumerate(days)}, a)
+        if not ok or list(got) != want or not ok2 or list(got2) != want or not ok3 or not isinstance(got3, dict) or list(got3.values()) != want:
+            bad('adjust-wrong', 'adjust(list / tuple / dict of the %d window days, %r) expected %s observed %s / %s / %s' % (len(days), a, fmt(want), fmt(got) if ok else got,
+                                                                                                                  fmt(list(got2)) if ok2 else got2, got3), op='adjust', a=a, rolled=False, container=True)
     # ---- an endpoint of drange spelt as a business-day bump off the other one: it is the CALENDAR's own bump (holidays and weekend included)
     for b in days:
         tb = ref.walk(b, 3)
